@@ -21,7 +21,7 @@ def run(ctx, proof):
     rng = ctx.rng
     rs_quick = [0, 1, 2, 3, 10]
     rs_full = list(range(0, 11)) + [100, 1000]
-    plan = [(2, 2, "all"), (3, 5, "all"), (4, 3, 6), (5, 2, 3)] if ctx.quick else \
+    plan = [(2, 2, "all"), (3, 5, "all"), (4, 5, 8), (5, 3, 4)] if ctx.quick else \
            [(2, 6, "all"), (3, 25, "all"), (4, 2, "all"), (4, 20, 20), (5, 10, 10), (6, 3, 4)]
     base = campaign.make_cases(ctx, ["x"], "sam", plan)
     cases = []
@@ -31,6 +31,15 @@ def run(ctx, proof):
         if c["n"] >= 5 and r > 10:
             r = 10
         cases.append(dict(c, comp=f"sam:{r}", r=r))
+    # sparse knowledge x small repetition counts: several consecutive unknown size levels, where information has to
+    # travel through more than one level of the monotone closure within one round
+    for n in ([4, 5] if ctx.quick else [4, 5, 6]):
+        for c in [c for c in base if c["n"] == n][::max(1, len([c for c in base if c["n"] == n]) // (3 if ctx.quick else 8))][:(3 if ctx.quick else 8)]:
+            opt = games.optional_ids(n)
+            for K in (games.minimal_ids(n), sorted(games.minimal_ids(n) + rng.sample(opt, 1)),
+                      sorted(games.minimal_ids(n) + [i for i in opt if games.popcount(i) == n - 1][:2])):
+                for r in (0, 1):
+                    cases.append(dict(c, K=sorted(K), stale=None, comp=f"sam:{r}", r=r))
 
     def oracle(c, tab):
         n, v, K, r = c["n"], c["v"], c["K"], c["r"]
